@@ -311,11 +311,24 @@ def abit_check(v, tier, wd, rng, replay_job=None):
                 for r in range(3 if q else 12):
                     jobs.append(ej.job(f"abit.n{n}.c{ci}.{r}", c, ej.rand_inputs(rng, c), r % n, [0], cap=1, pol=ej.policy(rng, n),
                                        events=False, probes=True, content_phases=["fabitn"], tag={"grp": "abit"}))
+    # more executions of one small configuration, only for the history of the parties' own bit vectors (the bits that
+    # mask the broadcast parities must be random: a position that holds the same value in every one of 40+ fresh vectors
+    # is not)
+    njudged = len(jobs)
+    if replay_job is None:
+        c = input_circuit(2, 2)
+        for r in range(24 if q else 60):
+            jobs.append(ej.job(f"abitx.{r}", c, ej.rand_inputs(rng, c), r % 2, [0], cap=1, pol=ej.policy(rng, 2), events=False,
+                               probes=True, content_phases=["fabitn"], tag={"grp": "abitx"}))
     out = vlib.run_pt("engine", jobs, wd, name="c06abit", timeout=3600)
-    evs = abit_events(out, {j["id"]: len(j["circuit"]["input_regs"]) for j in jobs})
+    allev = abit_events(out, {j["id"]: len(j["circuit"]["input_regs"]) for j in jobs})
+    evs = [e for e in allev if not e["run"].startswith("abitx.")]
+    samples = [{"ev": "abitx", "l": e["l"], "lp": e["lp"], "ones": p["ones"]} for e in allev for p in e["parties"]]
     tp = f"{wd}/c06abit.events.ndjson"
     with open(tp, "w") as f:
         for e in evs:
+            f.write(json.dumps(e) + "\n")
+        for e in samples:
             f.write(json.dumps(e) + "\n")
     res = vlib.tlc_trace("Mon_ABit", vlib.MON_CFG, tp, wd, depth_first=False, timeout=3600, name="Mon_ABit")
     jb = {j["id"]: j for j in jobs}
@@ -323,6 +336,12 @@ def abit_check(v, tier, wd, rng, replay_job=None):
         v.spec_drift(f"Mon_ABit: run {x['run']} call {x['call']}: {x['what']}")
     seen = False
     for x in res.get("viol", []):
+        if x.get("constant"):
+            v.violation("C06: bits of a party's aBit vector (which mask the broadcast test parities) are constant across executions",
+                        {"kind": "engine-history", "jobs": len(jobs), "seed": v.seed, "note": "rerun bin/check C06 with the same VERIF_SEED"},
+                        f"positions {sorted(x['positions'])[:16]}{'...' if len(x['positions']) > 16 else ''} of the {x['lp']}-bit vectors "
+                        f"(the first {x['l']} are returned) held the same value in all {x['samples']} fresh vectors of this check")
+            continue
         if seen:
             break
         seen = True
@@ -340,6 +359,7 @@ def abit_check(v, tier, wd, rng, replay_job=None):
         raise vlib.ToolError("negative control failed: Mon_ABit accepts the recorded call of the pinned tree")
     model = abit_model(wd, tier) if replay_job is None else {}
     return {"abit_calls_checked": res["checked"], "abit_calls_leaking": res["leaking"], "abit_runs": len(jobs),
+            "abit_bit_vectors_in_history": len(samples), "abit_vector_classes": res.get("classes", 0),
             "abit_negative_control": "recorded call of the pinned tree flagged", "abit_model": model}
 
 
